@@ -272,8 +272,9 @@ pub fn run(args: &Args, rep: &mut Report) {
     if args.shard == 0 && args.only_case.is_none() {
         crate::c19_ff::recorded(&ctx, rep);
     }
-    run_cases(args, "c19", n, rep, |i, rng, rep| {
-        if i % 4 == 3 {
+    run_cases(args, "c19", n, rep, |_i, rng, rep| {
+        // drawn from the case's own rng: `i % k` would tie the case kind to the shard number
+        if rng.chance(1, 4) {
             crate::c19_ff::case(&ctx, rng, rep, args.thorough());
         } else {
             case(&ctx, rng, rep);
